@@ -148,10 +148,11 @@ def validate(nd, tag, chunks):
     return viols, nonconfs, skips, m_ok
 
 
-def selftest_corrupt(events):
+def selftest_corrupt(events, dirty=()):
     """binding self-test: corrupt one recorded field of a validated trace line and require the
     TLA+ side (Layer P) to reject exactly that"""
     import copy
+    events = [e for e in events if e["c"]["id"] not in dirty]     # lines that already break a monitor are no baseline
     ok_ev = next((e for e in events if e.get("run") == "ok" and e["o"]["res"] == "ok" and e["o"]["tx"]["chain_ok"]), None)
     bad_ev = next((e for e in events if e.get("run") == "ok" and "o2" not in e and e["o"]["res"] != "ok" and e["c"].get("verdict") == "must_fail" and e["o"]["cancel"]), None)
     re_ev = next((e for e in events if e.get("run") == "ok" and "o2" in e and e["o2"]["res"] == "ok" and e["o2"]["tx"]["chain_ok"]), None)
@@ -374,7 +375,7 @@ def run(tier, replay_path, t0):
         if any(not r["caught_by"] for r in mutants.values()):
             raise ToolError("a seeded spec mutant was not caught: the model invariants are vacuous")
     known, new = classify("C02", keys)
-    st = selftest_corrupt(events) if not new else None
+    st = selftest_corrupt(events, set(v["id"] for v in viols)) if not new else None
     if st:
         log("  binding self-test: %d corrupted trace lines rejected by the TLA+ monitors, the untouched line accepted" % st["corrupted_lines_rejected"])
     ran = [e for e in events if e.get("run") == "ok"]
